@@ -20,18 +20,32 @@ import threading
 from vlib.common import HARNESS, REPO
 
 WRAPPED = ("pthread_create pthread_mutex_lock pthread_mutex_unlock pthread_cond_wait pthread_cond_signal "
-           "pthread_cond_broadcast pthread_kill pthread_cancel pthread_sigmask sigwait raise time sleep poll read "
+           "pthread_cond_broadcast pthread_kill pthread_cancel pthread_join pthread_sigmask sigwait raise time sleep poll read "
            "close fcntl fputs fflush exit").split()
 REPO_SRCS = ["src/pdsh/cbuf.c", "src/pdsh/rcmd.c", "src/common/err.c", "src/common/list.c", "src/common/hostlist.c",
              "src/common/xstring.c", "src/common/xmalloc.c", "src/common/fd.c", "src/common/xpoll.c"]
 NWORKERS = 8
 
 
-def build(ctx, san=True, name=None):
-    """Compile the harness against /repo's current working tree.  Returns the executable or None."""
-    exe = os.path.join(ctx.scratch, name or ("sched_run_san" if san else "sched_run"))
+def build(ctx, san=True, name=None, mem=False):
+    """Compile the harness against /repo's current working tree.  Returns the executable or None.
+    mem=True: the flavour in which every load / store of `threadcount` in dsh.c is an operation (class `mem`):
+    dsh_tu.c is compiled with -fsanitize=thread (instrumentation calls only), harness/sched/mem_hooks.c supplies
+    the called functions, the ThreadSanitizer runtime is not linked."""
+    exe = os.path.join(ctx.scratch, name or ("sched_run_mem" if mem else "sched_run_san" if san else "sched_run"))
     sd = os.path.join(HARNESS, "sched")
-    srcs = [os.path.join(sd, f) for f in ("dsh_tu.c", "sched.c", "rcmd_stub.c")] + \
+    first = os.path.join(sd, "dsh_tu.c")
+    if mem:
+        san = False
+        obj = os.path.join(ctx.scratch, "dsh_tu_mem.o")
+        p = subprocess.run(["gcc", "-c", "-g", "-O1", "-w", "-fno-builtin", "-fsanitize=thread", "-DHAVE_CONFIG_H",
+                            "-D_GNU_SOURCE", "-I" + REPO, "-I" + REPO + "/src/pdsh", "-I" + REPO + "/src/common",
+                            "-I" + REPO + "/src", "-I" + HARNESS, "-I" + sd, first, "-o", obj], stderr=subprocess.PIPE)
+        if p.returncode != 0:
+            ctx.broken.append(("C-BROKEN", "harness build (mem flavour)", p.stderr.decode("utf-8", "replace")[-1500:]))
+            return None
+        first = obj
+    srcs = [first] + [os.path.join(sd, f) for f in ("sched.c", "rcmd_stub.c", "mem_hooks.c")] + \
            [os.path.join(REPO, f) for f in REPO_SRCS]
     flags = ["-fno-builtin", "-I" + sd] + ["-Wl,--wrap=" + w for w in WRAPPED]
     # shipped flavour: assertions as configured in /repo (NDEBUG) -- dsh.c is run as it is built
